@@ -16,11 +16,11 @@ CLAIMS = {
                     '__presence_test) are proved to return exactly the presence relation. add_interactions_from / add_path / add_star / add_cycle and the '
                     'whole-history statement are covered by the bounded stand-in, hence level other.',
             'note': KERNEL_NOTE},
-    'C02': {'level': 'exploration', 'technique': 'bounded stand-in (runtime oracle from the property text over an exhaustively enumerated small scope); no query function is under contract yet',
-            'text': 'All ~30 query entry points (methods and dn.* forms, nbunch subsets with an unknown node) are compared with networkx on the static graph '
+    'C02': {'level': 'other', 'technique': 'contract-based deductive verification (pyvc) of number_of_interactions(u,v,t) x2 and has_interaction x2 (modular, against __presence_test); bounded stand-in for the other ~28 entry points',
+            'text': 'Proved for all states: number_of_interactions(u,v,t) is 1 iff the pair is present at t (ever, for t None) else 0, in both modes, and has_interaction likewise. All ~30 query entry points (methods and dn.* forms, nbunch subsets with an unknown node) are compared with networkx on the static graph '
                     '{(u,v): present at t} for every reachable state of the small scope, every t around the inhabited instants and t=None, both classes, both modes. '
                     'Deviations pinned by the repository tests are listed known findings (D10, D11, D12).',
-            'note': BOUNDED_NOTE},
+            'note': KERNEL_NOTE},
     'C03': {'level': 'other', 'technique': 'contract-based deductive verification (pyvc) of add_interaction x2: canonical-timeline invariant I2 + shape I1 as postconditions; bounded stand-in for derived constructors',
             'text': 'I2 (start<=end, transitive separation e_i+1<s_j) and I1 (mirror cells share one edge-data object, distinct pairs own distinct objects) are proved '
                     'preserved on every path of add_interaction for every pair; the graphs produced by time_slice, conversions, readers and node_link_graph are checked '
@@ -31,15 +31,15 @@ CLAIMS = {
                     'inputs; read side: temporal_snapshots_ids returns the ascending duplicate-free enumeration of dom Cnt, interactions_per_snapshots returns Cnt(t) / 0 '
                     '/ the whole map. "Cnt(t) = number of present interactions" needs the cardinality lemma L1 (assumed); avg_number_of_nodes is bounded only.',
             'note': KERNEL_NOTE + ' Counting lemma L1 (card changes by +-1 when one membership changes) assumed; sorted() and dict() by trusted contract.'},
-    'C05': {'level': 'other', 'technique': 'contract-based deductive verification (pyvc) of add_interaction x2: event-log invariant I4 as postcondition; bounded stand-in for stream_interactions',
+    'C05': {'level': 'other', 'technique': 'contract-based deductive verification (pyvc) of add_interaction x2: event-log invariant I4 as postcondition; stream_interactions x2 (generator ghost: yield multiset and last yield time)',
             'text': 'I4 (plus only/at every run start, minus only after a run end, runs closed, one orientation, no default entries) proved preserved on every path; the property '
-                    'form "runs longer than one instant are closed" proved outside the region of known finding D06; ordering / no-repeat / replay of the stream itself are '
-                    'bounded (stream_interactions not yet under contract).',
+                    'form "runs longer than one instant are closed" proved outside the region of known finding D06; stream_interactions x2 proved to yield every logged event exactly once, in non-decreasing time, without modifying the graph '
+                    '(nested loop invariants over the sorted keys and the keys of one instant); the replay-reconstructs-presence statement is a consequence of I4 and is also exercised by the bounded part.',
             'note': KERNEL_NOTE},
-    'C06': {'level': 'exploration', 'technique': 'bounded stand-in (runtime oracle over all windows of an enumerated small scope); time_slice not yet under contract',
-            'text': 'For every reachable state of the small scope and every window around its instants: class, presence inside the window, nodes = endpoints with attributes, '
+    'C06': {'level': 'other', 'technique': 'contract-based deductive verification (pyvc) of time_slice x2, modular: against the contracts of __init__, add_interaction (caller side) and the flattened iterator; bounded stand-in for slice-of-slice and well-formedness',
+            'text': 'time_slice is proved for all graphs and all windows: nested loop invariants (visited-pairs ghost set; interval index with "latest run of H ends before the next interval", which discharges the callee precondition "never rejected" and "e > t"), presence of H = window /\\ presence of G for every pair and instant, nodes = endpoints with attributes of G, G unchanged, H written only through the kernel (typestate), ValueError iff t_to < t_from. Also, for every reachable state of the small scope and every window around its instants: class, presence inside the window, nodes = endpoints with attributes, '
                     'source unchanged, slice well formed (C03/C04/C05 oracles on its own presence), slice of slice = intersection, invalid window raises ValueError.',
-            'note': BOUNDED_NOTE},
+            'note': KERNEL_NOTE + ' ASSUMED (caller side only): the contract of the flattened iterators interactions_iter() / out_interactions_iter() with t=None (each pair once, one orientation, with its edge data).'},
     'C07': {'level': 'other', 'technique': 'contract-based deductive verification (pyvc) of add_interaction x2: frame clauses on both exceptional exits; bounded stand-in for bulk helpers and continuations',
             'text': 'On both rejection exits (ValueError, NetworkXError), in both modes, every representation component is proved equal to its pre-value; "legal continuations '
                     'behave as if the call had never been made" then follows from determinism; bulk-helper prefix state and continuations are also exercised by the bounded part.',
@@ -64,17 +64,17 @@ CLAIMS = {
     'C13': {'level': 'exploration', 'technique': 'bounded stand-in (brute-force enumeration); the deductive technique does not decide completeness (external all_simple_paths + protocol-level invariant)',
             'text': 'Result compared with a brute-force enumerator written from C12 on the same spaces; empty result when u absent at start; sample<1 subset; '
                     'all_time_respecting_paths against per-source calls. Known finding D19 (self-loop hops).', 'note': BOUNDED_NOTE},
-    'C14': {'level': 'exploration', 'technique': 'bounded stand-in (synthetic path lists with ties, duplicates, single hops); contract planned',
-            'text': 'annotate_paths / path_length / path_duration compared with set comprehensions from the property text over generated path lists.', 'note': BOUNDED_NOTE},
+    'C14': {'level': 'other', 'technique': 'contract-based deductive verification (pyvc) of path_length and path_duration; bounded stand-in for annotate_paths',
+            'text': 'path_length = hop count and path_duration = last minus first time proved for every non-empty path; annotate_paths / path_length / path_duration compared with set comprehensions from the property text over generated path lists.', 'note': BOUNDED_NOTE},
     'C15': {'level': 'exploration', 'technique': 'bounded stand-in (DAG checker from the property text on all small temporal graphs, all roots/targets/windows)',
             'text': 'Acyclicity, edge soundness, window, sources/targets, ValueError for invalid windows, empty DAG without snapshots; ids not 0-based, negative, with gaps. '
                     'Known finding D19 (self-loop on the root).', 'note': BOUNDED_NOTE},
     'C16': {'level': 'exploration', 'technique': 'bounded stand-in (runtime oracle over an enumerated small scope incl. multi-run reciprocal timelines); conversions not yet under contract',
             'text': 'class, nodes kept, presence relation per the property (union / reciprocal intersection / both directions), source unchanged, result well formed, deep-copy '
                     'isolation incl. growing a run of the result in place. Known finding D09b (to_directed creates one direction).', 'note': BOUNDED_NOTE},
-    'C17': {'level': 'exploration', 'technique': 'bounded stand-in (exact Fraction recomputation of every statistic from the presence model)',
-            'text': 'All eleven stream-graph measures and the inter-event histograms (global, per node, in/out) recomputed exactly on the small scope. Known finding D24.',
-            'note': BOUNDED_NOTE + ' Floats are compared with tolerance 1e-9 against exact rationals.'},
+    'C17': {'level': 'other', 'technique': 'contract-based deductive verification (pyvc) of edge_contribution (loop invariant: running sum of interval lengths); bounded stand-in (exact Fraction recomputation) for the other measures',
+            'text': 'edge_contribution(u,v) proved equal to sum_i(e_i - s_i + 1) / |dom Cnt| (0 for a pair that never interacts, no ZeroDivisionError), modularly against has_interaction; with counting lemma L4 (assumed) this is |T_uv|/|T|. All eleven stream-graph measures and the inter-event histograms (global, per node, in/out) recomputed exactly on the small scope. Known finding D24.',
+            'note': KERNEL_NOTE + ' Counting lemmas L1 (instance: non-empty set has cardinality >= 1) and L4 assumed; / is real division. Floats are compared with tolerance 1e-9 against exact rationals in the bounded part.'},
     'C18': {'level': 'other', 'technique': 'contract-based deductive verification (pyvc) of compact_timeslot; bounded stand-in (row grammar on real parsers) for the readers',
             'text': 'compact_timeslot proved to be a strictly increasing bijection from the input set onto 0..k-1 for all finite int sets (sorted/enumerate by trusted contract, '
                     'dict comprehension with exact overwrite semantics); noise skipping, delimiters, TypeError, keys=True rank substitution are bounded (string handling is '
